@@ -175,7 +175,8 @@ def run(ctx):
     if len(loops) != 1:
         raise AnalysisError(f"{pr.qual}: expected one retry loop")
     loop = loops[0]
-    ctr = counter_names(loop)
+    from ..retry import loop_budget, loop_env
+    ctr = loop_budget(pr, loop)
 
     def classify(c):
         f = c.func
@@ -188,7 +189,7 @@ def run(ctx):
         return None
     for R in (1, 2, 3):
         ex = Explorer(prog, pr, classify, {ctr[0]: R})
-        paths = ex.run([loop], {ctr[0]: R}, ())
+        paths = ex.run([loop], loop_env(pr, loop, ctr[0], R), ())
         ctx.count("budgets")
         ctx.count("paths", len(paths))
         for p in paths:
